@@ -1187,3 +1187,119 @@ def rt_c06(tier="quick", first_only=False, count=None):
     if count is not None:
         count.append(n)
     return fails
+
+
+# --------------------------------------------------------------------------------------
+# C11: constructors reproduce / reject; constraints hold for every raw parameter value (float32 and float64)
+def rt_c11(tier="quick", first_only=False, count=None):
+    import equinox as eqx
+    import flowjax.bijections as B
+    import flowjax.distributions as Dm
+    from flowjax.wrappers import unwrap, WeightNormalization
+
+    fails, n = [], 0
+
+    def add(msg, **case):
+        fails.append(dict(what=msg, case=case))
+
+    mags = [1e-6, 1e-3, 0.5, 1.0, 37.0, 100.0, 1e3, 1e6]
+    for dt in (jnp.float32, jnp.float64):
+        tol = 1e-5 if dt == jnp.float32 else 1e-12
+        for m in mags:
+            v = jnp.asarray([m, 2 * m], dt)
+            for name, mk, get in (("Affine.scale", lambda: B.Affine(jnp.zeros(2, dt), v), lambda o: unwrap(o.scale)), ("Scale.scale", lambda: B.Scale(v), lambda o: unwrap(o.scale)),
+                                  ("Normal.scale", lambda: Dm.Normal(jnp.zeros(2, dt), v), lambda o: o.scale), ("StudentT.df", lambda: Dm.StudentT(v), lambda o: o.df),
+                                  ("Exponential.rate", lambda: Dm.Exponential(v), lambda o: o.rate), ("Uniform.maxval", lambda: Dm.Uniform(jnp.zeros(2, dt), v), lambda o: o.maxval)):
+                n += 1
+                try:
+                    got = np.asarray(get(mk()), float)
+                except Exception as ex:  # noqa: BLE001
+                    add(f"{name} = {m:g} ({np.dtype(dt).name}): constructor raised {type(ex).__name__} for a valid argument", what=name, magnitude=m, dtype=np.dtype(dt).name)
+                    continue
+                if not (np.all(np.isfinite(got)) and np.all(got > 0) and np.allclose(got, np.asarray(v, float), rtol=max(tol, 1e-6))):
+                    add(f"{name} = {m:g} ({np.dtype(dt).name}): read back {got.tolist()}", what=name, magnitude=m, dtype=np.dtype(dt).name)
+        if first_only and fails:
+            return fails
+    # rejection at the edge of validity
+    for name, mk in (("Affine(scale=0)", lambda: B.Affine(0.0, jnp.array([1.0, 0.0]))), ("Scale(scale<0)", lambda: B.Scale(jnp.array([-1.0]))), ("StudentT(df=0)", lambda: Dm.StudentT(jnp.array(0.0))),
+                     ("Uniform(maxval==minval)", lambda: Dm.Uniform(jnp.array(1.0), jnp.array(1.0))), ("VmapMixture(weight 0)", lambda: Dm.VmapMixture(eqx.filter_vmap(Dm.Normal)(jnp.zeros(2), jnp.ones(2)), jnp.array([1.0, 0.0]))),
+                     ("Permute(non-permutation)", lambda: B.Permute(jnp.array([0, 0, 2])))):
+        n += 1
+        try:
+            o = mk()
+            jax.block_until_ready(jax.tree_util.tree_leaves(o))
+            add(f"{name} was accepted", what=name)
+        except Exception:  # noqa: BLE001
+            pass
+    # constraints for moved raw parameters
+    rng = np.random.default_rng(1)
+    raws = [-50.0, -20.0, -3.0, 0.0, 3.0, 20.0, 50.0]
+    for dt in (jnp.float32, jnp.float64):
+        for r in raws:
+            n += 1
+            a = B.Affine(jnp.zeros(2, dt), jnp.ones(2, dt))
+            a = eqx.tree_at(lambda t: t.scale.arr, a, jnp.full(2, r, dt))
+            s = np.asarray(unwrap(a.scale), float)
+            if not np.all(s > 0):
+                add(f"Affine scale for raw={r} ({np.dtype(dt).name}) is {s.tolist()} (must stay strictly positive)", raw=r, dtype=np.dtype(dt).name)
+            t = Dm.StudentT(jnp.ones(2, dt))
+            t = eqx.tree_at(lambda d: d.base_dist.df.arr, t, jnp.full(2, r, dt))
+            if not np.all(np.asarray(t.df, float) > 0):
+                add(f"StudentT df for raw={r} is not positive", raw=r)
+    for seed in range(6 if tier == "quick" else 30):
+        n += 1
+        scale = [1.0, 10.0, 50.0][seed % 3]
+        sp = build_spline_perturbed(5, (-2.0, 3.0), seed, scale=scale)
+        u = unwrap(sp)
+        xp, yp, dd = (np.asarray(v, float) for v in (u.x_pos, u.y_pos, u.derivatives))
+        for nm, arr in (("x_pos", xp), ("y_pos", yp)):
+            if not (np.all(np.diff(arr) > 0) and arr[0] == -2.0 and arr[-1] == 3.0):
+                add(f"spline {nm} for raw parameters ~N(0,{scale}^2) (seed {seed}) is not strictly increasing from -2 to 3: {arr.tolist()}", seed=seed)
+        if not np.all(dd >= sp.min_derivative):
+            add(f"spline derivatives below min_derivative for seed {seed}: {dd.tolist()}", seed=seed)
+        # mixture weights stay normalised, weight-norm rows keep their norm parameter
+        mix = Dm.VmapMixture(eqx.filter_vmap(Dm.Normal)(jnp.zeros(3), jnp.ones(3)), jnp.array([1.0, 2.0, 3.0]))
+        mix = eqx.tree_at(lambda d: d.log_normalized_weights.args[0], mix, jnp.asarray(rng.normal(size=3) * scale))
+        lw = np.asarray(unwrap(mix.log_normalized_weights), float)
+        if not np.isclose(np.sum(np.exp(lw)), 1.0, atol=1e-9):
+            add(f"mixture weights sum to {np.sum(np.exp(lw))!r} after moving the raw weights", seed=seed)
+        wn = WeightNormalization(jnp.asarray(rng.normal(size=(3, 4))))
+        wn = eqx.tree_at(lambda w: (w.weight, w.scale.arr), wn, (jnp.asarray(rng.normal(size=(3, 4)) * scale), jnp.asarray(rng.normal(size=(3, 1)) * min(scale, 20.0))))
+        W = np.asarray(unwrap(wn), float)
+        target = np.asarray(jax.nn.softplus(wn.scale.arr), float)[:, 0]
+        if not np.allclose(np.linalg.norm(W, axis=1), target, rtol=1e-9):
+            add(f"weight-normalised rows have norms {np.linalg.norm(W, axis=1).tolist()}, norm parameter {target.tolist()}", seed=seed)
+        # planar layers stay invertible (leaky relu: analytic inverse must undo transform)
+        for slope in (0.1, 0.5, 1.0):
+            dim = 3
+            # keep |w.u| inside the range where softplus(w.u) does not underflow (the property's box is chosen for that)
+            prm = jnp.asarray(np.clip(rng.normal(size=2 * dim + 1) * min(scale, 10.0) / 5, -4.0, 4.0))
+            pl = B.Planar(jax.random.PRNGKey(seed), dim=dim, negative_slope=slope)
+            pl = eqx.tree_at(lambda p_: p_.params, pl, prm)
+            x = jnp.asarray(rng.normal(size=dim) * 3)
+            y = pl.transform(x)
+            xb = pl.inverse(y)
+            if not np.allclose(np.asarray(xb), np.asarray(x), rtol=1e-5, atol=1e-7):
+                add(f"Planar(negative_slope={slope}) with moved parameters (seed {seed}) is not invertible: inverse(transform(x)) = {np.asarray(xb).tolist()} for x = {np.asarray(x).tolist()}", seed=seed, slope=slope)
+        if first_only and fails:
+            return fails
+    if count is not None:
+        count.append(n)
+    return fails
+
+
+def rt_planar(slope, w, u, b):
+    """real _UnconditionalPlanar: inverse must undo transform along the direction of w"""
+    from flowjax.bijections.planar import _UnconditionalPlanar
+
+    pl = _UnconditionalPlanar(jnp.asarray(w, float), jnp.asarray(u, float), jnp.asarray(float(b)), float(slope))
+    wn = np.asarray(w, float) / np.linalg.norm(w)
+    wu_hat = float(jnp.asarray(w, float) @ pl.get_act_scale())
+    for t in np.linspace(-6, 6, 49):
+        x = jnp.asarray(t * wn + np.array([0.0] * (len(w) - 1) + [0.5]))
+        y = pl.transform(x)
+        xb = pl.inverse(y)
+        if not np.allclose(np.asarray(xb), np.asarray(x), rtol=1e-7, atol=1e-9):
+            return (f"_UnconditionalPlanar(weight={list(map(float, w))}, act_scale={list(map(float, u))}, bias={float(b)}, negative_slope={float(slope)}): w.u_hat = {wu_hat:.6g}, "
+                    f"1 + slope*w.u_hat = {1 + slope * wu_hat:.6g}; x = {np.asarray(x).tolist()} -> y = {np.asarray(y).tolist()} but inverse(y) = {np.asarray(xb).tolist()}")
+    return None
